@@ -543,6 +543,10 @@ def _fhex(mo):
         return "f:overflow"
 
 
+# a reader / socket-reader result: nothing but event tokens (a repr text may contain " F:" by accident)
+_EVENTS = re.compile(r"^(?:(?:F:[0-9a-f-]+:[^ ]*|H:\w+|R:\w+|X:\w+|STOP|STUCK)(?: |$))+$")
+
+
 def canon_model(line, tables=None):
     """bring a model output line into the implementation's canonical form:
     float products, public attributes only, attributes sorted by name, descriptions hashed"""
@@ -551,7 +555,7 @@ def canon_model(line, tables=None):
         # one result per thread (op `conc`)
         return " || ".join(canon_model(p, tables) for p in line.split(" || "))
     line = _F.sub(_fhex, line)
-    if line.startswith("F:") or " F:" in line:
+    if _EVENTS.match(line):
         # reader events: F:<raw>:<identity>:<attributes> -> attributes replaced by their digest
         toks = []
         for t in line.split(" "):
